@@ -179,8 +179,10 @@ def _attach_patches(ctx) -> None:
         mp = os.path.join(sd, d, "meta.json")
         if os.path.exists(mp) and json.load(open(mp)).get("property") == ctx.prop:
             work.append(("seeded/" + d, os.path.join(sd, d, "patch.diff"), ctx.prop, base))
+    # behaviour-preserving refactorings written for THIS property (ids Cnn*): the full cross-product (every refactoring x
+    # every property) is what `tools/seed_scan.py --benign` runs at development time; here it would only cost minutes
     for d in sorted(os.listdir(bd)) if os.path.isdir(bd) else []:
-        if os.path.exists(os.path.join(bd, d, "patch.diff")):
+        if d.startswith(ctx.prop) and os.path.exists(os.path.join(bd, d, "patch.diff")):
             work.append(("benign/" + d, os.path.join(bd, d, "patch.diff"), ctx.prop, base))
     with ProcessPoolExecutor(max_workers=16) as ex:
         res = list(ex.map(_scan_patch, work))
